@@ -53,7 +53,7 @@ def run(ctx, replay):
     ctx.tlc_check("MC_IndexOOO", "IndexOOO.cfg", workers=8)
     replays = _idxfam.generate(ctx, sizes, quick)
     ctx.sample({"replay": replays[len(replays) // 3]})
-    o5, o6 = _idxfam.run_driver(ctx, replays)
+    o5, o6 = _idxfam.run_driver(ctx, replays, which="06")
     evs = validate(ctx, o6)
     n = sum(1 for e in evs if e["ev"] == "reset")
     q = sum(e.get("queries", 0) for e in evs if e["ev"] == "step")
@@ -63,7 +63,7 @@ def run(ctx, replay):
     kvs = ("leveldb",) if quick else ("leveldb", "kv", "sqlite")
     for kv in kvs:
         sub = replays[::max(1, len(replays) // (60 if quick else 400))]
-        _, o6b = _idxfam.run_driver(ctx, sub, kv=kv, tag="_" + kv)
+        _, o6b = _idxfam.run_driver(ctx, sub, kv=kv, tag="_" + kv, which="06")
         e2 = validate(ctx, o6b)
         n += len(sub)
         q += sum(e.get("queries", 0) for e in e2 if e["ev"] == "step")
